@@ -366,14 +366,31 @@ func genTyp(r *Rng, o genTypeOpts) jsonapi.Type {
 		if len(o.kinds) > 0 {
 			kind = o.kinds[r.IntN(len(o.kinds))]
 		}
-		_ = t.AddAttr(jsonapi.Attr{Name: fieldNames[names[i]], Type: kind, Nullable: r.bool()})
+		// written into the maps directly: the generator must not depend on the editing API
+		// of the code under test (names are distinct by construction)
+		if t.Attrs == nil {
+			t.Attrs = map[string]jsonapi.Attr{}
+		}
+		t.Attrs[fieldNames[names[i]]] = jsonapi.Attr{Name: fieldNames[names[i]], Type: kind, Nullable: r.bool()}
 	}
 	targets := o.targets
 	if len(targets) == 0 {
 		targets = []string{o.name}
 	}
 	for j := 0; j < nr && i < len(names); j, i = j+1, i+1 {
-		_ = t.AddRel(jsonapi.Rel{FromType: o.name, FromName: fieldNames[names[i]], ToOne: r.bool(), ToType: targets[r.IntN(len(targets))]})
+		rel := jsonapi.Rel{FromType: o.name, FromName: fieldNames[names[i]], ToOne: r.bool(), ToType: targets[r.IntN(len(targets))]}
+		if r.chance(1, 3) {
+			// names an inverse: any field name, often the name of one of this type's own
+			// attributes (the inverse lives in the target type: no clash)
+			rel.ToName = fieldNames[r.IntN(len(fieldNames))]
+			if an := sortedKeys(t.Attrs); len(an) > 0 && r.bool() {
+				rel.ToName = an[r.IntN(len(an))]
+			}
+		}
+		if t.Rels == nil {
+			t.Rels = map[string]jsonapi.Rel{}
+		}
+		t.Rels[rel.FromName] = rel
 	}
 	if t.Attrs == nil {
 		t.Attrs = map[string]jsonapi.Attr{}
@@ -382,6 +399,47 @@ func genTyp(r *Rng, o genTypeOpts) jsonapi.Type {
 		t.Rels = map[string]jsonapi.Rel{}
 	}
 	return t
+}
+
+// putAttr / putRel / putType build schemas and types by writing the maps and the slice
+// directly: the generators must not depend on the editing API of the code under test
+// (a field whose name is taken, or an unnamed one, is skipped, as the API would).
+func putAttr(t *jsonapi.Type, a jsonapi.Attr) {
+	if _, ok := t.Attrs[a.Name]; ok || a.Name == "" {
+		return
+	}
+	if _, ok := t.Rels[a.Name]; ok {
+		return
+	}
+	if t.Attrs == nil {
+		t.Attrs = map[string]jsonapi.Attr{}
+	}
+	t.Attrs[a.Name] = a
+}
+
+func putRel(t *jsonapi.Type, rel jsonapi.Rel) {
+	if _, ok := t.Attrs[rel.FromName]; ok || rel.FromName == "" || rel.ToType == "" {
+		return
+	}
+	if _, ok := t.Rels[rel.FromName]; ok {
+		return
+	}
+	if t.Rels == nil {
+		t.Rels = map[string]jsonapi.Rel{}
+	}
+	t.Rels[rel.FromName] = rel
+}
+
+func putType(s *jsonapi.Schema, t jsonapi.Type) {
+	for i := range s.Types {
+		if s.Types[i].Name == t.Name {
+			return
+		}
+	}
+	if t.Name == "" {
+		return
+	}
+	s.Types = append(s.Types, t)
 }
 
 func sortedKeys[V any](m map[string]V) []string {
@@ -395,10 +453,16 @@ func sortedKeys[V any](m map[string]V) []string {
 
 // structTypeFor builds, with reflect.StructOf, the struct a user would declare for typ.
 func structTypeFor(typ jsonapi.Type) reflect.Type {
-	fields := []reflect.StructField{{
+	idField := reflect.StructField{
 		Name: "ID", Type: reflect.TypeOf(""),
 		Tag: reflect.StructTag(fmt.Sprintf(`json:"id" api:"%s"`, typ.Name)),
-	}}
+	}
+	fields := []reflect.StructField{idField}
+	if (len(typ.Attrs)+2*len(typ.Rels))%3 == 1 {
+		// a third of the shapes declare the ID in an embedded struct (a common Base type):
+		// the library finds it with FieldByName and it behaves like a directly declared ID
+		fields = []reflect.StructField{{Name: "Base", Type: reflect.StructOf([]reflect.StructField{idField}), Anonymous: true}}
+	}
 	n := 0
 	for _, k := range sortedKeys(typ.Attrs) {
 		a := typ.Attrs[k]
@@ -454,6 +518,9 @@ func genFieldVals(r *Rng, typ jsonapi.Type) map[string]any {
 			for i := range ids {
 				ids[i] = idPool[r.IntN(len(idPool))]
 			}
+			if n == 0 && r.bool() {
+				ids = nil // an empty to-many is a nil or an empty slice
+			}
 			vals[k] = ids
 		}
 	}
@@ -491,6 +558,25 @@ func cloneVal(v any) any {
 		}
 		return v
 	}
+}
+
+// newWrappedLiteral builds the struct the way user code does - as a literal, every field
+// written directly, the ID included - and wraps it (no Set call is involved).
+func newWrappedLiteral(typ jsonapi.Type, id string, vals map[string]any) *jsonapi.Wrapper {
+	sv := reflect.New(structTypeFor(typ)).Elem()
+	sv.FieldByName("ID").SetString(id)
+	for i := 0; i < sv.NumField(); i++ {
+		k := sv.Type().Field(i).Tag.Get("json")
+		v, ok := vals[k]
+		if !ok || sv.Type().Field(i).Anonymous || sv.Type().Field(i).Name == "ID" {
+			continue
+		}
+		rv := reflect.ValueOf(cloneVal(v))
+		if rv.IsValid() && rv.Type() == sv.Field(i).Type() {
+			sv.Field(i).Set(rv)
+		}
+	}
+	return jsonapi.Wrap(sv.Addr().Interface())
 }
 
 func fill(res jsonapi.Resource, id string, vals map[string]any) {
